@@ -1,5 +1,6 @@
 """C06 — cancellation is exactly-once."""
 from .. import rules_msg
+from .C11 import Renamed
 
 
 def run(ck, progs):
@@ -17,7 +18,12 @@ def run(ck, progs):
     ck.rule("C06.7", "a remotely cancelled message is released only through the at-GVT list after its non-blocking send")
     ck.rule("C06.9", "the flag word of a freshly allocated (recycled) message is written on every path before the message is published")
     ck.rule("C06.8", "early anti-message list: linked completely before it is published, unlinked before it is released, initially empty")
+    ck.rule("C06.10", "a remote anti-message is released only after it matched an event (both identity fields compared equal on the path) and is "
+                      "declared unmatched only at the end of the history; otherwise it waits on the early list (C02.8)")
     for cfg, P in progs.items():
+        from . import C02
+        C02._exhaustive(Renamed(ck, {"C02.8": "C06.10"}), P, cfg)
+        C02._matched_only(Renamed(ck, {"C02.8": "C06.10"}), P, cfg)
         rules_msg.check_rmw_protocol(ck, P, "C06.1")
         rules_msg.check_rmw_tag_discipline(ck, P, "C06.1")
         rules_msg.check_typestate(ck, P, "C06.3", "C06.2")
